@@ -303,8 +303,12 @@ fn ask_driver(lines: &[String]) -> Option<Vec<String>> {
     let exe = std::path::Path::new("lean/.lake/build/bin/roocdrv");
     if !exe.exists() { return None; }
     let mut child = std::process::Command::new(exe).stdin(std::process::Stdio::piped()).stdout(std::process::Stdio::piped()).spawn().ok()?;
-    { let mut si = child.stdin.take()?; for l in lines { let _ = writeln!(si, "{}", l); } }
+    // the requests are written from a second thread: writing them all before reading deadlocks on full pipes
+    let mut si = child.stdin.take()?;
+    let owned: Vec<String> = lines.to_vec();
+    let writer = std::thread::spawn(move || { for l in owned { if writeln!(si, "{}", l).is_err() { break; } } });
     let out = child.wait_with_output().ok()?;
+    let _ = writer.join();
     let ans: Vec<String> = String::from_utf8_lossy(&out.stdout).lines().map(|s| s.to_string()).collect();
     if ans.len() == lines.len() { Some(ans) } else { None }
 }
